@@ -58,57 +58,92 @@ func arriveAtLine(w *logSink, lines int, done *atomic.Int32, nq int) {
 // genPar draws one concurrent phase.  In half of the phases the operations
 // are aimed at each other: a CNAME chain is added first (sequentially), the
 // overlapped queries ask for names of that chain, and the overlapped admin
-// operations hit entries of it, with replacements that land on its names — a
-// change of the table matters to a request in flight only if it touches what
-// the request resolves through.
+// operations mostly hit entries of the part of the chain that a query passes,
+// with replacements that land on names further along — a change of the table
+// matters to a request in flight only if it touches what the request resolves
+// through.
 func genPar(t *rapid.T, allNames []string) (ops []Op) {
 	op := Op{K: "par",
 		Seed: rapid.Uint64().Draw(t, "par_seed"),
 		Pct:  rapid.SampledFrom([]int{20, 50, 80}).Draw(t, "par_pct"),
-		LogY: rapid.IntRange(0, 3).Draw(t, "par_logy") != 0,
 		Lst:  rapid.IntRange(0, 3).Draw(t, "par_list") == 0,
 	}
 	var chain []Entry
-	var chainNames []string
+	var ns []string
 	if rapid.Bool().Draw(t, "par_aimed") {
-		chain = genChain(t)
-		seen := map[string]bool{}
+		chain, ns = genChainNames(t)
 		for _, e := range chain {
 			e := e
 			ops = append(ops, Op{K: "add", E: &e})
-			for _, n := range []string{e.D, e.A} {
-				if k, _ := (Entry{A: n}).kind(); k == vCNAME && !isWild(n) && !seen[n] {
-					seen[n] = true
-					chainNames = append(chainNames, n)
-				}
-			}
 		}
+		op.LogY = true
+	} else {
+		op.LogY = rapid.IntRange(0, 3).Draw(t, "par_logy") != 0
 	}
+	k := len(ns) - 1
 	aimed := func(label string) bool {
-		return len(chainNames) > 0 && rapid.IntRange(0, 3).Draw(t, label) != 0
+		return len(ns) > 0 && rapid.IntRange(0, 3).Draw(t, label) != 0
 	}
-	replacement := func() Entry {
-		if aimed("par_n_aimed") {
-			d := rapid.SampledFrom(chainNames).Draw(t, "par_n_name")
-			return Entry{D: d, A: genAnswer(t, d)}
+	// The queries; starts[q] is the index of the chain name an aimed query asks.
+	var starts []int
+	for i, n := 0, rapid.IntRange(1, 4).Draw(t, "par_n_q"); i < n; i++ {
+		var name string
+		if aimed("par_q_aimed") {
+			// Mostly from the front part, so that there is chain left to follow.
+			s := rapid.IntRange(0, k).Draw(t, "par_q_start")
+			if s > 0 && rapid.Bool().Draw(t, "par_q_front") {
+				s = rapid.IntRange(0, s-1).Draw(t, "par_q_start2")
+			}
+			starts = append(starts, s)
+			name = ns[s]
+		} else {
+			name = genQName(t, allNames)
 		}
-		return genEntry(t)
-	}
-	// target sets the target of a delete / update: an entry of the chain (sent
-	// as given), an index into the live table, or an entry that may be absent.
-	target := func(a *Op) {
-		switch {
-		case aimed("par_tg_aimed"):
-			e := rapid.SampledFrom(chain).Draw(t, "par_tg_entry")
-			a.Missing, a.E = true, &e
-		case rapid.IntRange(0, 7).Draw(t, "par_tg_missing") == 0:
-			e := genEntry(t)
-			a.Missing, a.E = true, &e
-		default:
-			a.Idx = rapid.IntRange(0, 9).Draw(t, "par_tg_idx")
+		q := Op{K: "query",
+			Name:  flipCase(t, name),
+			Qt:    rapid.SampledFrom(qtypes).Draw(t, "qtype"),
+			Proto: rapid.SampledFrom(protos).Draw(t, "proto"),
 		}
+		if rapid.IntRange(0, 7).Draw(t, "fault") == 0 {
+			q.Fault = rapid.SampledFrom(parFaults).Draw(t, "par_fault_kind")
+		}
+		q.Dly = rapid.SampledFrom([]int{0, 0, 0, 0, 2, 8}).Draw(t, "par_q_delay")
+		op.Qs = append(op.Qs, q)
 	}
 	for i, n := 0, rapid.SampledFrom([]int{1, 1, 1, 2, 2, 3}).Draw(t, "par_n_adm"); i < n; i++ {
+		// from: where the query this operation is aimed at enters the chain.
+		from := 0
+		if len(starts) > 0 {
+			from = rapid.SampledFrom(starts).Draw(t, "par_adm_ref")
+		}
+		// hit: the chain entry the operation targets, at or after from.
+		hit := 0
+		if len(chain) > 0 {
+			hit = rapid.IntRange(min(from, len(chain)-1), len(chain)-1).Draw(t, "par_adm_hit")
+		}
+		replacement := func() Entry {
+			if aimed("par_n_aimed") {
+				// A name further along the chain than the entry hit.
+				d := ns[rapid.IntRange(min(hit+1, k), k).Draw(t, "par_n_name")]
+				return Entry{D: d, A: genAnswer(t, d)}
+			}
+			return genEntry(t)
+		}
+		// target sets the target of a delete / update: an entry of the chain
+		// (sent as given), an index into the live table, or an entry that may be
+		// absent.
+		target := func(a *Op) {
+			switch {
+			case aimed("par_tg_aimed"):
+				e := chain[hit]
+				a.Missing, a.E = true, &e
+			case rapid.IntRange(0, 7).Draw(t, "par_tg_missing") == 0:
+				e := genEntry(t)
+				a.Missing, a.E = true, &e
+			default:
+				a.Idx = rapid.IntRange(0, 9).Draw(t, "par_tg_idx")
+			}
+		}
 		var a Op
 		switch rapid.SampledFrom([]string{"update", "update", "update", "add", "delete"}).Draw(t, "par_adm_kind") {
 		case "add":
@@ -124,26 +159,8 @@ func genPar(t *rapid.T, allNames []string) (ops []Op) {
 		}
 		// A query passes some dozens of scheduling points on its way through
 		// the server: the admin operation arrives anywhere along it.
-		a.Dly = rapid.IntRange(0, 40).Draw(t, "par_adm_delay")
+		a.Dly = rapid.IntRange(0, 44).Draw(t, "par_adm_delay")
 		op.Adm = append(op.Adm, a)
-	}
-	for i, n := 0, rapid.IntRange(1, 4).Draw(t, "par_n_q"); i < n; i++ {
-		var name string
-		if aimed("par_q_aimed") {
-			name = rapid.SampledFrom(chainNames).Draw(t, "par_q_name")
-		} else {
-			name = genQName(t, allNames)
-		}
-		q := Op{K: "query",
-			Name:  flipCase(t, name),
-			Qt:    rapid.SampledFrom(qtypes).Draw(t, "qtype"),
-			Proto: rapid.SampledFrom(protos).Draw(t, "proto"),
-		}
-		if rapid.IntRange(0, 7).Draw(t, "fault") == 0 {
-			q.Fault = rapid.SampledFrom(parFaults).Draw(t, "par_fault_kind")
-		}
-		q.Dly = rapid.SampledFrom([]int{0, 0, 0, 0, 2, 8}).Draw(t, "par_q_delay")
-		op.Qs = append(op.Qs, q)
 	}
 	return append(ops, op)
 }
